@@ -51,6 +51,16 @@ PropC16(e) == e.ev = "snap" =>
   /\ e.kind = "item" => /\ (e.bytes # <<>>) = (vs = <<>>)            \* encodable iff no variable is left
                         /\ e.size = SizeOf(x)
   /\ e.kind = "msg" => (e.bytes # <<>>) = MsgComplete(e.abs)
+\* an explicit empty item as a list element (nothing to print, nothing to encode): the factory or the fill may refuse it; if
+\* the tree is built, it encodes iff its variable list is empty like any other item, and apart from entries that stand for
+\* the empty positions (the code lists them under the name "", and so never encodes such a tree) the list names exactly
+\* the real variables, in order; the same for a message on it whose wait bit and session id are set
+NonEmptyNames(vs) == SelectSeq(vs, LAMBDA n : n # <<>>)
+PropC16Empty(e) == e.ev = "snapempty" =>
+  (e.built =>
+     /\ (e.bytes # <<>>) = (e.vars = <<>>)                     \* encodable iff the variable list is empty
+     /\ NonEmptyNames(e.vars) = e.real
+     /\ e.msgbuilt => ((e.msgbytes # <<>>) = (e.msgvars = <<>>) /\ NonEmptyNames(e.msgvars) = e.real))
 AgreeC16(e) == e.ev = "snap" =>
   /\ e.kind = "item" => e.string = PrintItem(e.abs, 0) /\ e.bytes = ItemBytes(e.abs)
   \* the length bounds an ASCII variable reports are the ones it enforces (stored); (-2, -2) for a literal
@@ -151,7 +161,7 @@ PropC12(e) ==
                 /\ e.msg.sid = (IF e.hsms THEN e.sid ELSE -1)
                 /\ e.msg.sys = (IF e.hsms THEN Pad4(e.sys) ELSE <<0, 0, 0, 0>>)
 
-InvC16 == l > 0 => PropC16(E)
+InvC16 == l > 0 => PropC16(E) /\ PropC16Empty(E)
 InvAgreeC16 == l > 0 => AgreeC16(E)
 InvC09 == l > 0 => PropC09(E) /\ PropC09e(E) /\ PropC18e(E)
 InvC18e == l > 0 => PropC18e(E)
